@@ -1,0 +1,5 @@
+//go:build !verif
+
+package interp
+
+func verifStep(*Interpreter, *frame) {}
